@@ -62,6 +62,14 @@ def confirm(mod, violation):
     sig = violation["signature"]
     if sig.startswith("hang/"):
         return "unit"
+    if sig.startswith("crash/"):
+        from .engine import run_one
+
+        unit = violation.get("unit")
+        ra = run_one(mod.__name__, 0, unit, 900)
+        rb = run_one(mod.__name__, 0, unit, 900)
+        ok = all(any(v["signature"] == sig for v in r["violations"]) for r in (ra, rb))
+        return "unit" if ok else None
     try:
         a = [s for s, _ in mod.replay(violation["case"])]
         b = [s for s, _ in mod.replay(violation["case"])]
@@ -85,7 +93,7 @@ def confirm(mod, violation):
 
 def do_replay(mod, prop, path):
     body = json.load(open(path))
-    fails = mod.replay(body["case"])
+    fails = [] if body["signature"].startswith(("crash/", "hang/")) else mod.replay(body["case"])
     if not fails and body.get("unit") is not None:
         from .engine import run_one
 
